@@ -176,6 +176,41 @@ pub fn run(cfg: &Cfg) {
             }
         }
     }
+    // ---- every (key material, scheme) pair the private-key constructor accepts: whatever such a key
+    //      signs verifies under its own public part - or it refuses to sign; never a signature that
+    //      its public key rejects
+    {
+        use in_toto::crypto::{PrivateKey, SignatureScheme};
+        let schemes = [SignatureScheme::Ed25519, SignatureScheme::RsaSsaPssSha256, SignatureScheme::RsaSsaPssSha512, SignatureScheme::EcdsaP256Sha256];
+        for k in pool.iter() {
+            for sc in &schemes {
+                let (der, sc2) = (k.pk8.clone(), sc.clone());
+                let sk = match guarded(move || PrivateKey::from_pkcs8(&der, sc2)) {
+                    Ok(Ok(sk)) => sk,
+                    Ok(Err(_)) => {
+                        sink.stat("pk8-scheme/rejected");
+                        continue;
+                    }
+                    Err(()) => {
+                        sink.oracle(false, "PrivateKey::from_pkcs8 panicked", &format!("key {} scheme {:?}", k.label, sc));
+                        continue;
+                    }
+                };
+                let mlen = 1 + r.below(200);
+                let msg = r.bytes(mlen);
+                let replay = format!("key {} loaded with scheme {:?}, message {}", k.label, sc, hex(&msg));
+                match guarded(std::panic::AssertUnwindSafe(|| sk.sign(&msg))) {
+                    Ok(Ok(sig)) => {
+                        sink.oracle(sk.public().verify(&msg, &sig).is_ok(), "a key signs something its own public part does not verify", &replay);
+                        sink.oracle(sig.key_id() == sk.public().key_id(), "a signature does not carry its maker's key id", &replay);
+                        sink.stat("pk8-scheme/signs");
+                    }
+                    Ok(Err(_)) => sink.stat("pk8-scheme/refuses-to-sign"),
+                    Err(()) => sink.oracle(false, "signing panicked", &replay),
+                }
+            }
+        }
+    }
     // ---- randomised schemes: every length a signature can have. An ECDSA signature is a DER pair of
     //      minimal integers (68 to 72 bytes for P-256; the short ones are rare), so sign again and again
     //      until each length has been through the wire trip
